@@ -1,4 +1,5 @@
 import SSV.Proofs.StreamHandshake
+import SSV.Proofs.StreamSticky
 /-
 C02 — Tampered, spliced or foreign SS2022 TCP traffic is never delivered as data.
 Property theorems only (lemmas: SSV/Proofs/StreamAuth.lean). The attacker is an arbitrary wire.
@@ -112,6 +113,28 @@ theorem response_bound (C : Crypto) (c : CReader) (now : Int) (n : Nat) (bs : By
 
 example (honest : Nat → Option Bytes) : ∃ C, ∀ k, AeadAuth C k honest := ⟨authCrypto honest, authCrypto_auth honest⟩
 
+/-- **reader_prefix_continued** (finding F22 repaired: sticky `readErr`): the attacker presents any
+wire and the caller keeps calling — `Read` with any buffer sizes, `WriteTo`, tunnel copy, in any
+mixture — also AFTER calls have failed. Everything the conn ever hands over is a prefix of what the
+genuine peer wrote. (Without the sticky error this is false of the code: a read issued after an
+authentication failure can open a genuine 2-byte payload chunk as a length chunk and hand the next
+length field to the caller as data; the check reproduces that on the unrepaired tree.)
+Depends on the regenerated fact `readErrorsSticky`. -/
+theorem reader_prefix_continued (C : Crypto) (k : Bytes) (n0 : Nat) (cs : List Bytes)
+    (hA : AeadAuth C k (honestOf n0 cs)) (hv : ValidChunks cs) (wire : Bytes) (ops : List ROp) :
+    ∃ rest, cs.flatten = ((SReader.run C ⟨⟨k, n0, [], wire⟩, none⟩ ops).map ROut.bytes).flatten ++ rest := by
+  rw [srun_bytes]
+  exact reader_prefix C k n0 cs hA hv wire ops
+
+/-- after the first failed call every later call on the conn fails with the same error and hands
+over nothing (server conn and client conn alike) -/
+theorem failed_conn_stays_failed (C : Crypto) (r : Reader) (e : Err) (ops : List ROp)
+    (c : CReader) (hc : c.err = some e) (now : Int) :
+    SReader.run C ⟨r, some e⟩ ops = ops.map (fun op => failedOut op e) ∧
+    (∀ n, c.readS C now n = (.fail e, c)) ∧ c.writeToS C now = (.copied [] (some e), c) ∧
+    (∀ st, c.tunnelS C now st = (.copied [] (some e), c)) :=
+  ⟨failed_run C r e ops, client_failed C c e hc now⟩
+
 end SSV.C02
 
 #print axioms SSV.C02.authCrypto_auth
@@ -121,3 +144,5 @@ end SSV.C02
 #print axioms SSV.C02.no_request_without_key
 #print axioms SSV.C02.fallback_untouched
 #print axioms SSV.C02.response_bound
+#print axioms SSV.C02.reader_prefix_continued
+#print axioms SSV.C02.failed_conn_stays_failed
